@@ -5,10 +5,10 @@ package h
 
 import (
 	"fmt"
-	"reflect"
 	"image"
 	"image/color"
 	"math"
+	"reflect"
 	"strings"
 
 	"github.com/reactivego/ivg"
@@ -16,17 +16,17 @@ import (
 
 // Call is one Destination call (or one of the extra Encoder-history ops).
 type Call struct {
-	Name     string // reset csel nsel creg nreg lod start Z H h V v L l T t Y y Q q S s C c A a | rc rn rlod bytes hires
-	Adj      uint8
-	Incr     bool
-	Col      ivg.Color
-	F        []float32
-	La, Sw   bool
-	VB       ivg.ViewBox
-	Pal      [64]color.RGBA
-	U8       uint8
-	B        bool
-	Rect     image.Rectangle // rast: SetRasterizer with a fresh rasteriser over this rectangle (renderer histories only)
+	Name   string // reset csel nsel creg nreg lod start Z H h V v L l T t Y y Q q S s C c A a | rc rn rlod bytes hires
+	Adj    uint8
+	Incr   bool
+	Col    ivg.Color
+	F      []float32
+	La, Sw bool
+	VB     ivg.ViewBox
+	Pal    [64]color.RGBA
+	U8     uint8
+	B      bool
+	Rect   image.Rectangle // rast: SetRasterizer with a fresh rasteriser over this rectangle (renderer histories only)
 }
 
 func HexF32(f float32) string { return fmt.Sprintf("%08x", math.Float32bits(f)) }
@@ -244,7 +244,7 @@ type Recorder struct {
 	cSel, nSel uint8
 }
 
-func (r *Recorder) add(c Call) { r.Calls = append(r.Calls, c) }
+func (r *Recorder) add(c Call)  { r.Calls = append(r.Calls, c) }
 func fl(f ...float32) []float32 { return append([]float32(nil), f...) }
 
 func (r *Recorder) Reset(vb ivg.ViewBox, pal [64]color.RGBA) {
@@ -273,8 +273,10 @@ func (r *Recorder) SetNReg(adj uint8, incr bool, f float32) {
 	}
 	r.add(Call{Name: "nreg", Adj: adj, Incr: incr, F: fl(f)})
 }
-func (r *Recorder) SetLOD(a, b float32)             { r.add(Call{Name: "lod", F: fl(a, b)}) }
-func (r *Recorder) StartPath(adj uint8, x, y float32) { r.add(Call{Name: "start", Adj: adj, F: fl(x, y)}) }
+func (r *Recorder) SetLOD(a, b float32) { r.add(Call{Name: "lod", F: fl(a, b)}) }
+func (r *Recorder) StartPath(adj uint8, x, y float32) {
+	r.add(Call{Name: "start", Adj: adj, F: fl(x, y)})
+}
 func (r *Recorder) ClosePathEndPath()               { r.add(Call{Name: "Z"}) }
 func (r *Recorder) ClosePathAbsMoveTo(x, y float32) { r.add(Call{Name: "Y", F: fl(x, y)}) }
 func (r *Recorder) ClosePathRelMoveTo(x, y float32) { r.add(Call{Name: "y", F: fl(x, y)}) }
